@@ -26,7 +26,7 @@ static int lsan_check(void) { return 0; }
 
 /* mmap of a reader can be made to fail once (ld --wrap=mmap): the error path must release everything */
 void *__real_mmap(void *, size_t, int, int, int, off_t);
-static int g_fail_mmap;
+static __thread int g_fail_mmap;   /* per thread: the fault is meant for the mtbl_reader_init call of the arming thread, not for a chunk job that happens to run on a pool worker at that moment */
 void *__wrap_mmap(void *addr, size_t len, int prot, int flags, int fd, off_t off)
 {
 	if (g_fail_mmap && fd >= 0) { g_fail_mmap = 0; errno = ENOMEM; return MAP_FAILED; }
